@@ -39,6 +39,10 @@ func genC10(seed uint64, tier string) C10Cfg {
 	universe := append(append([]uint16(nil), ids...), out)
 	s := C04Cfg{N: n, T: r.Range(2, n), Late: -1, Topic: fmt.Sprintf("topic-%d", r.Intn(1000))}
 	backend := pickStr(r, []string{"scripted", "scripted", "bls", "ps"})
+	if r.Bool(0.04) {
+		backend = "eddsa" // the tss-lib adapter's ClassifyMsg / OnMsg under garbage (about a second per run)
+		s.T = n - 1
+	}
 	s.Deploy = DeployCfg{IDs: universe, PIDs: identityPIDs(universe), Silent: r.Bool(0.45), Threshold: n - 1, Backend: backend, PSMsgLen: 2}
 	s.Deploy.SP = genScriptedParams(r, 2)
 	s.Deploy.SignSP = genScriptedParams(r, 2)
